@@ -286,7 +286,11 @@ Definition catalogue : list uent := [
   mkE 49 (mkU [0;0;0;0;1;0;0]%Z (1#1) (0#1))  (* 68 "mol" = mole *);
   mkE 50 (mkU [0;0;0;0;1;0;0]%Z (1#1000) (0#1))  (* 69 "mmol" = millimole *);
   mkE 51 (mkU [0;0;0;0;0;1;0]%Z (1#1) (0#1))  (* 70 "A" = ampere *);
-  mkE 52 (mkU [0;0;0;0;0;0;1]%Z (1#1) (0#1))  (* 71 "cd" = candela *)
+  mkE 52 (mkU [0;0;0;0;0;0;1]%Z (1#1) (0#1))  (* 71 "cd" = candela *);
+  mkE 53 (mkU [0;0;-1;1;0;0;0]%Z (1#3600) (0#1))  (* 72 "K/h" = kelvin hour-1 *);
+  mkE 54 (mkU [0;0;-1;1;0;0;0]%Z (1#3600) (0#1))  (* 73 "degC/h" = delta_degree_Celsius hour-1 *);
+  mkE 55 (mkU [0;0;-1;1;0;0;0]%Z (1#6480) (0#1))  (* 74 "degF/h" = delta_degree_Fahrenheit hour-1 *);
+  mkE 56 (mkU [0;1;-3;-1;0;0;0]%Z (1#1) (0#1))  (* 75 "W m-2 K-1" = watt meter-2 kelvin-1 *)
 ].
 
 Definition dflt : uent := mkE 4999 (mkU [] 1 0).
